@@ -56,6 +56,12 @@ class sym_int(metaclass=_IntMeta):
     _is_sym_int = True
 
 
+def sym_ord(x):
+    if getattr(x, "__sym__", None) == "chars" and len(x.chars) == 1:
+        return core.SInt(x.eng, x.chars[0])
+    return builtins.ord(x)
+
+
 def sym_len(x):
     if hasattr(x, "sym_len"):
         return x.sym_len()
@@ -118,6 +124,7 @@ def install():
         m.float = sym_float
         m.int = sym_int
         m.len = sym_len
+        m.ord = sym_ord
         m.isinstance = sym_isinstance
     MODS["robotools"] = robotools
     return MODS
